@@ -24,6 +24,7 @@ type Job struct {
 	Dump      string `json:"dump"`       // write the event log of (the last) run here
 	MaxViol   int    `json:"max_viol"`
 	ShrinkS   int    `json:"shrink_s"`
+	ViolProp  string `json:"viol_prop"` // hunting: minimise violations of this property instead of Prop
 }
 
 type ReplayFile struct {
@@ -146,7 +147,11 @@ func TestWorker(t *testing.T) {
 			b, _ := json.Marshal(sc)
 			res.Summary += " scenario=" + string(b)
 		}
-		v := violOf(res, job.Prop, "")
+		vp := job.Prop
+		if job.ViolProp != "" {
+			vp = job.ViolProp
+		}
+		v := violOf(res, vp, "")
 		if v != nil && res.HarnessErr == "" && nviol < job.MaxViol {
 			nviol++
 			// minimise while the same oracle keeps failing
@@ -171,8 +176,8 @@ func TestWorker(t *testing.T) {
 			}
 			bv := violOf(bestRes, v.Prop, v.Oracle)
 			sb, _ := json.Marshal(best)
-			rf := ReplayFile{Engine: job.Engine, Prop: job.Prop, Seed: seed, Violation: *bv, LogHash: bestRes.LogHash, Events: bestRes.Events, Shrunk: steps, Scenario: sb}
-			name := fmt.Sprintf("%s/%s-%s-%d-%s.json", job.ReplayDir, job.Prop, job.Engine, seed, strings.ReplaceAll(bv.Oracle, "/", "_"))
+			rf := ReplayFile{Engine: job.Engine, Prop: vp, Seed: seed, Violation: *bv, LogHash: bestRes.LogHash, Events: bestRes.Events, Shrunk: steps, Scenario: sb}
+			name := fmt.Sprintf("%s/%s-%s-%d-%s.json", job.ReplayDir, vp, job.Engine, seed, strings.ReplaceAll(bv.Oracle, "/", "_"))
 			fb, _ := json.MarshalIndent(rf, "", " ")
 			if err := os.WriteFile(name, fb, 0o644); err == nil {
 				res.Summary += " replay=" + name
